@@ -89,6 +89,9 @@ def base_doc(rng, k):
     d = gen.tree(rng, 2, 3, nulls=False, root='map')
     d['name'] = 'n%d' % k
     d['kind'] = rng.choice(['a', 'b'])
+    if rng.random() < 0.3:
+        # a list of maps that document-level patterns can describe partially
+        d['items'] = [{'id': x, 'v': j + k} for j, x in enumerate(rng.sample(['p', 'q', 'r', 's'], rng.randint(1, 3)))]
     return d
 
 
@@ -256,6 +259,11 @@ def gen_case(rng, i, tier):
             elif r < 0.37:
                 body['$match'] = {'kind': 'zzz'}
                 labels.add('match:none')
+            elif r < 0.42 and isinstance(tgt[1].get('items'), list) and tgt[1]['items'] and all(isinstance(x, dict) and 'id' in x for x in tgt[1]['items']):
+                # a pattern holding a list of partial maps: every pattern entry must be matched by some entry of the document's list
+                e = tgt[1]['items'][-1]
+                body['$match'] = {'items': rng.choice([[{'id': e['id']}], [{'id': e['id'], 'v': e.get('v')}], [{'id': 'nosuch'}], [{'v': e.get('v')}, {'id': tgt[1]['items'][0].get('id')}]])}
+                labels.add('match:list-of-partial-maps')
             elif r < 0.43:
                 body['$match'] = {}
                 labels.add('match:all')
